@@ -34,6 +34,7 @@ import (
 	"fmt"
 	"math/big"
 	"reflect"
+	"slices"
 	"strings"
 	"testing"
 	"time"
@@ -279,8 +280,19 @@ func vc34Canonical(contract, method string) []string {
 	return nil
 }
 
-func vc34Bytes(t *rapid.T, label string) []byte {
-	n := rapid.SampledFrom([]int{0, 1, 20, 32, 33, 64, 90}).Draw(t, label+"Len")
+// vc34D draws from rapid, or - with a nil t - returns fixed middle choices (self-check).
+type vc34D struct{ t *rapid.T }
+
+func (d vc34D) pick(label string, n int) int {
+	if d.t == nil {
+		return n / 2
+	}
+	return rapid.IntRange(0, n-1).Draw(d.t, label)
+}
+
+func vc34Bytes(d vc34D, label string) []byte {
+	lens := []int{0, 1, 20, 32, 33, 64, 90}
+	n := lens[d.pick(label+"Len", len(lens))]
 	b := make([]byte, n)
 	for i := range b {
 		b[i] = byte(i*7 + n)
@@ -288,11 +300,11 @@ func vc34Bytes(t *rapid.T, label string) []byte {
 	return b
 }
 
-func (e *vc34Env) args(t *rapid.T, shape, label string) []any {
+func (e *vc34Env) args(d vc34D, shape, label string) []any {
 	bs := func(n int) []any {
 		r := make([]any, n)
 		for i := range r {
-			r[i] = vc34Bytes(t, fmt.Sprintf("%s.b%d", label, i))
+			r[i] = vc34Bytes(d, fmt.Sprintf("%s.b%d", label, i))
 		}
 		return r
 	}
@@ -304,32 +316,32 @@ func (e *vc34Env) args(t *rapid.T, shape, label string) []any {
 	case "put6":
 		return append(bs(4), "name", "zone")
 	case "put7":
-		return append(bs(4), "name", "zone", rapid.Bool().Draw(t, label+".meta"))
+		return append(bs(4), "name", "zone", d.pick(label+".meta", 2) == 1)
 	case "createV2":
 		ci := &containerrpc.ContainerInfo{Owner: vc34Hash(0x55), Nonce: make([]byte, 16), BasicACL: big.NewInt(0x1fbfbfff),
 			StoragePolicy: []byte{1, 2, 3}}
-		if rapid.Bool().Draw(t, label+".version") {
+		if d.pick(label+".version", 2) == 1 {
 			ci.Version = &containerrpc.ContainerAPIVersion{Major: big.NewInt(2), Minor: big.NewInt(18)}
 		}
-		for i := rapid.IntRange(0, 2).Draw(t, label+".attrs"); i > 0; i-- {
+		for i := d.pick(label+".attrs", 3); i > 0; i-- {
 			ci.Attributes = append(ci.Attributes, &containerrpc.ContainerAttribute{Key: fmt.Sprintf("k%d", i), Value: "v"})
 		}
 		return append([]any{ci}, bs(3)...)
 	case "report":
-		return []any{vc34Bytes(t, label+".cid"), int64(1000), int64(3), e.keys[1].PublicKey().Bytes()}
+		return []any{vc34Bytes(d, label+".cid"), int64(1000), int64(3), e.keys[1].PublicKey().Bytes()}
 	case "setAttr7":
-		return append([]any{vc34Bytes(t, label+".cid"), "attr", "value", int64(1234567)}, bs(3)...)
+		return append([]any{vc34Bytes(d, label+".cid"), "attr", "value", int64(1234567)}, bs(3)...)
 	case "rmAttr6":
-		return append([]any{vc34Bytes(t, label+".cid"), "attr", int64(1234567)}, bs(3)...)
+		return append([]any{vc34Bytes(d, label+".cid"), "attr", int64(1234567)}, bs(3)...)
 	case "addNode":
 		return []any{&netmaprpc.NetmapNode2{Addresses: []string{"/ip4/10.0.0.1/tcp/8080"}, Attributes: map[string]string{"Price": "1"},
 			Key: e.keys[2].PublicKey(), State: big.NewInt(1)}}
 	case "updateState":
-		return []any{int64(rapid.IntRange(0, 4).Draw(t, label+".state")), e.keys[2].PublicKey().Bytes()}
+		return []any{int64(d.pick(label+".state", 5)), e.keys[2].PublicKey().Bytes()}
 	case "repPut":
 		return []any{int64(7), e.keys[0].PublicKey().Bytes(), e.trust}
 	case "ints":
-		r := make([]any, rapid.IntRange(1, 4).Draw(t, label+".n"))
+		r := make([]any, 1+d.pick(label+".n", 4))
 		for i := range r {
 			r[i] = int64(i)
 		}
@@ -390,7 +402,7 @@ func (e *vc34Env) genCall(t *rapid.T, i int, firstIsCreateV2 bool) vc34Call {
 			shape = rapid.SampledFrom(vc34Shapes).Draw(t, lbl+".shape")
 		}
 	}
-	return vc34Call{key: k, shape: shape, args: e.args(t, shape, lbl)}
+	return vc34Call{key: k, shape: shape, args: e.args(vc34D{t}, shape, lbl)}
 }
 
 func vc34Script(calls []vc34Call) []byte {
@@ -487,9 +499,8 @@ func (e *vc34Env) mutate(t *rapid.T, nr *payload.P2PNotaryRequest, alpha keys.Pu
 		mt.Scripts, mt.Signers = mt.Scripts[:2], mt.Signers[:2]
 	case "witness-count-5":
 		for len(mt.Scripts) < 5 {
-			mt.Scripts = append(mt.Scripts[:last:last], append([]transaction.Witness{{InvocationScript: vc34Dummy, VerificationScript: []byte{1}}}, mt.Scripts[last:]...)...)
-			mt.Signers = append(mt.Signers[:last:last], append([]transaction.Signer{{Account: vc34Hash(0x99)}}, mt.Signers[last:]...)...)
-			last++
+			mt.Scripts = slices.Insert(mt.Scripts, 2, transaction.Witness{InvocationScript: vc34Dummy, VerificationScript: []byte{1}})
+			mt.Signers = slices.Insert(mt.Signers, 2, transaction.Signer{Account: vc34Hash(0x99)})
 		}
 	case "signer-missing":
 		mt.Signers = mt.Signers[:len(mt.Signers)-1]
@@ -696,24 +707,15 @@ func TestVerifC34Canonical(t *testing.T) {
 	for _, k := range e.regList {
 		for _, shape := range vc34Canonical(e.names[k.hash], k.method) {
 			var got []vc34Delivery
-			rapid.Check(t, func(t *rapid.T) { // only to draw the (irrelevant) argument lengths
-				got = got[:0]
-				c := vc34Call{key: k, shape: shape, args: e.args(t, shape, "c")}
-				if shape == "updateState" {
-					c.args[0] = int64(1)
-				}
-				nr := e.validNR(vc34Script([]vc34Call{c}), alpha, false, false, false, 100)
-				l := e.newListener(alpha, nil, vc34BC{h: 100}, &got)
-				event.VerifC34ParseAndHandleNotary(l, &result.NotaryRequestEvent{Type: mempoolevent.TransactionAdded, NotaryRequest: nr})
-				if len(got) != 1 || got[0].key != k {
-					ev.Inconclusive("C34 self-check: canonical %s(%s) was not delivered to its handler (got %d deliveries)", e.name(k), shape, len(got))
-				}
-			})
+			c := vc34Call{key: k, shape: shape, args: e.args(vc34D{}, shape, "c")}
+			nr := e.validNR(vc34Script([]vc34Call{c}), alpha, false, false, false, 100)
+			l := e.newListener(alpha, nil, vc34BC{h: 100}, &got)
+			event.VerifC34ParseAndHandleNotary(l, &result.NotaryRequestEvent{Type: mempoolevent.TransactionAdded, NotaryRequest: nr})
+			if len(got) != 1 || got[0].key != k {
+				ev.Inconclusive("C34 self-check: canonical %s(%s) was not delivered to its handler (got %d deliveries)", e.name(k), shape, len(got))
+			}
 			rec.Case(true, e.name(k)+"/"+shape, "canonical-delivered")
 		}
-	}
-	if len(vc34Canonical("", "")) != 0 {
-		t.Fatal("unreachable")
 	}
 	for _, k := range e.regList {
 		if len(vc34Canonical(e.names[k.hash], k.method)) == 0 {
